@@ -146,6 +146,9 @@ pub fn run_async(b: &mut BuiltAsync, sc: &Scenario, spec: &StratSpec, seed: u64,
                     snap.finished.store(rayon::stats::SPAWN_FINISHED.load(Ordering::SeqCst), Ordering::SeqCst);
                     snap.set.store(true, Ordering::SeqCst);
                     if let Some(i) = new_inst {
+                        // a new dispatch begins: only now do its instance number and its
+                        // directives become current (the previous job has handed back)
+                        ctx.cur_call.store(dispatched_before as usize, Ordering::SeqCst);
                         ctx.top_inst.store(i, Ordering::SeqCst);
                         for s in ctx.infos.iter().filter(|i| i.parent.is_none()) {
                             ctx.states[s.sid].occ.store(0, Ordering::SeqCst);
@@ -160,7 +163,6 @@ pub fn run_async(b: &mut BuiltAsync, sc: &Scenario, spec: &StratSpec, seed: u64,
             match op {
                 AOp::Dispatch => {
                     let inst = ctx.next_inst.fetch_add(1, Ordering::SeqCst);
-                    ctx.cur_call.store(dispatched_before as usize, Ordering::SeqCst);
                     detsim::detached("async-dispatch", cond, mk_at_return(Some(inst)), || ad.dispatch());
                     ctx.async_dispatched.fetch_add(1, Ordering::SeqCst);
                 }
